@@ -124,6 +124,10 @@ func (h *EntryHandler) Handle(ctx context.Context, q *dns.Msg, serverMeta server
 	if serverMeta.FromUDP {
 		udpSize := getValidUDPSize(qCtx.ClientOpt())
 		resp.Truncate(udpSize)
+	} else {
+		// A stream transport carries at most 65535 bytes. Truncate turns name
+		// compression on if (and only if) the message does not fit without it.
+		resp.Truncate(dns.MaxMsgSize)
 	}
 
 	payload, err := packMsgPayload(resp)
